@@ -29,6 +29,7 @@ def step (_ : Unit) (ws : List String) : Unit × String :=
   | "mkuser" :: _ => ((), "ok")
   | "upduser" :: _ => ((), "ok")
   | "login" :: _ => ((), "ok")
+  | "relog" :: _ => ((), "ok")
   | ["endpoints"] => ((), "endpoints **")
   | "call" :: _ => ((), "*")
   | "import" :: _ => ((), "status * *")
@@ -79,10 +80,18 @@ def specStep (s : SpecSt) (ws : List String) : SpecSt × String :=
        | some (_, st) => ({ s0 with users := (name, updateUser st (paramOf rest)) :: s.users.filter (·.1 != name) }, "spec ok")
        | none => (s0, "-"))
     | "login" :: name :: rest =>
+      if (s.users.find? (·.1 == name)).isNone then (s0, "-") else     -- (not created in this history: shrunk cases)
       if ans != ["ok"] then (s0, "spec FAIL a user created through the console cannot log in") else
       (match s.users.find? (·.1 == name) with
        | some (_, st) => ({ s0 with sessions := (kv rest "as", st) :: s.sessions.filter (·.1 != kv rest "as") }, "spec ok")
        | none => (s0, "-"))
+    | "relog" :: name :: _ =>
+      -- (a session this history never created is not judged: shrunk cases)
+      if (s.sessions.find? (·.1 == name)).isNone then (s0, "-") else
+      -- the session goes through the raft log's encoding (what a follower and a restarted node hold): it must survive
+      -- it, and the privilege it carries is still the stored one - the later calls are judged against the same group
+      if ans != ["ok"] then (s0, "spec FAIL a session does not survive the raft log's encoding (it is lost on every other node and by a restart)")
+      else (s0, "spec ok")
     | "import" :: _ :: rest =>
       -- the archive upload: wherever the imported configuration has appeared, the user's privilege must permit that namespace
       (match s.sessions.find? (·.1 == kv rest "session"), ans with
